@@ -5,9 +5,9 @@ C12, batches — how the neo4j driver groups several entities with DIFFERENT del
 Every statement carries the `set n:…` / `remove n:…` clauses of the FIRST node that opened its group, and is applied
 to every node whose key equals the group's key: the grouping is right only if equal keys mean equal kind deltas.
 
-`keyOld` / `byKeyOld` transcribe the keys as they are at /repo ae91177 (finding: no framing between the digest of the
-added kinds and the digest of the deleted kinds, no framing between kind names; the UpdateNodeBy key ignores the deleted
-kinds); `keyFramed` / `byKeyFramed` are the keys of hooks/C12-fix3.patch.  The 64-bit xxhash over the key bytes is
+`keyFramed` / `byKeyFramed` transcribe the keys as they are in /repo since commit c89800a; `keyOld` / `byKeyOld` are the
+keys before it (no framing between the digest of the added kinds and the digest of the deleted kinds, no framing between
+kind names; the UpdateNodeBy key ignored the deleted kinds), kept for the refutation.  The 64-bit xxhash over the key bytes is
 modelled as the bytes themselves (collision-freedom of the hash is trusted).  Core Lean only.
 -/
 namespace Dawgs.C12Batch
